@@ -696,10 +696,106 @@ impl Family for Collections {
     }
 }
 
+
+/// Every way a value can be handed to the encoder gives the same bytes: by value and by reference for the
+/// primitives, `&str` and `&String`, `&[T]` and `&Vec<T>`, `encode_size(n)` and `encode_varuint(n as u64)`; the
+/// by-reference bytes are the ones the other families compare with the wire-format reference.
+pub struct EntryPoints;
+fn enc_with(f: impl FnOnce(&mut Encoder<VecOutputTarget>) -> slice_codec::Result<()>) -> Result<Vec<u8>, String> {
+    let mut buf: Vec<u8> = vec![0x77];
+    {
+        let mut e = Encoder::from(&mut buf);
+        f(&mut e).map_err(|e| e.to_string())?;
+    }
+    Ok(buf)
+}
+impl Family for EntryPoints {
+    fn name(&self) -> String {
+        "entry-points/by value vs by reference for every primitive at its boundary values, &str vs &String, &[T] vs &Vec<T>, encode_size vs encode_varuint".into()
+    }
+    fn len(&self) -> u64 {
+        4
+    }
+    fn describe(&self, idx: u64) -> Value {
+        {
+            let groups = ["integers", "floats and bool", "strings", "sequences and sizes"];
+            json!({"group": groups[idx as usize]})
+        }
+    }
+    fn run(&self, idx: u64) -> CaseOut {
+        let mut out = CaseOut::new(hash_str(&format!("c10entry{idx}")));
+        out.validated = 1;
+        out.nontrivial = true;
+        out.steps = 0;
+        let mut same = |what: &str, a: Result<Vec<u8>, String>, b: Result<Vec<u8>, String>, out: &mut CaseOut| {
+            out.steps += 1;
+            if a != b {
+                out.violate(format!("c10/entry-points/{}", what.split(' ').next().unwrap_or("")), format!("{what}: {:?} vs {:?}", a, b));
+            }
+        };
+        macro_rules! ints {
+            ($t:ty) => {{
+                let mut vals: Vec<$t> = vec![0 as $t, 1 as $t, <$t>::MAX, <$t>::MIN, <$t>::MAX / 2, (<$t>::MAX / 2).wrapping_add(1)];
+                for k in 0..(std::mem::size_of::<$t>() * 8) {
+                    vals.push((1 as $t).wrapping_shl(k as u32));
+                    vals.push((1 as $t).wrapping_shl(k as u32).wrapping_sub(1));
+                }
+                for v in vals {
+                    same(&format!("{} {v} by value / by reference", stringify!($t)), enc_with(|e| e.encode(v)), enc_with(|e| e.encode(&v)), &mut out);
+                }
+            }};
+        }
+        match idx {
+            0 => {
+                ints!(u8);
+                ints!(i8);
+                ints!(u16);
+                ints!(i16);
+                ints!(u32);
+                ints!(i32);
+                ints!(u64);
+                ints!(i64);
+            }
+            1 => {
+                for b in [false, true] {
+                    same(&format!("bool {b} by value / by reference"), enc_with(|e| e.encode(b)), enc_with(|e| e.encode(&b)), &mut out);
+                }
+                for bits in [0u32, 1, 0x8000_0000, 0x7f80_0000, 0xff80_0000, 0x7fc0_0001, 0x3f80_0000, 0x0080_0000, 0x007f_ffff, u32::MAX] {
+                    let v = f32::from_bits(bits);
+                    same(&format!("f32 bits {bits:#x} by value / by reference"), enc_with(|e| e.encode(v)), enc_with(|e| e.encode(&v)), &mut out);
+                    let w = f64::from_bits(((bits as u64) << 32) | bits as u64);
+                    same(&format!("f64 bits {:#x} by value / by reference", w.to_bits()), enc_with(|e| e.encode(w)), enc_with(|e| e.encode(&w)), &mut out);
+                }
+            }
+            2 => {
+                let mut strings: Vec<String> = vec![String::new(), "a".into(), "é".into(), "€😀".into(), "\u{0}".into(), "x".repeat(63), "x".repeat(64), "é".repeat(8191), "x".repeat(16384)];
+                strings.push("a\u{3000}b".into());
+                for st in &strings {
+                    same(&format!("string of {} bytes as &str / &String", st.len()), enc_with(|e| e.encode(st.as_str())), enc_with(|e| e.encode(st)), &mut out);
+                }
+            }
+            _ => {
+                for n in [0usize, 1, 2, 63, 64, 65, 300, 16383, 16384] {
+                    let v: Vec<u8> = (0..n).map(|i| (i % 251) as u8).collect();
+                    same(&format!("bytes x{n} as &[u8] / &Vec<u8>"), enc_with(|e| e.encode(v.as_slice())), enc_with(|e| e.encode(&v)), &mut out);
+                    let w: Vec<i32> = (0..n.min(70)).map(|i| i as i32 * -7).collect();
+                    same(&format!("i32 x{} as &[i32] / &Vec<i32>", w.len()), enc_with(|e| e.encode(w.as_slice())), enc_with(|e| e.encode(&w)), &mut out);
+                    let ss: Vec<String> = (0..n.min(70)).map(|i| "s".repeat(i % 5)).collect();
+                    same(&format!("strings x{} as &[String] / &Vec<String>", ss.len()), enc_with(|e| e.encode(ss.as_slice())), enc_with(|e| e.encode(&ss)), &mut out);
+                    same(&format!("size {n} through encode_size / encode_varuint"), enc_with(|e| e.encode_size(n)), enc_with(|e| e.encode_varuint(n as u64)), &mut out);
+                }
+            }
+        }
+        out.class = format!("group{idx}");
+        out
+    }
+}
+
 pub fn families(tier: &str) -> Vec<Box<dyn Family>> {
     let quick = tier == "quick";
     let mut f: Vec<Box<dyn Family>> = vec![
         Box::new(SmallExhaustive),
+        Box::new(EntryPoints),
         Box::new(VarWindows::new()),
         Box::new(WideBoundaries::new(if quick { 1 } else { 2 })),
         Box::new(Strings::new()),
